@@ -99,6 +99,9 @@ def decField (s : String) : Option Msg.GoField :=
   | [gn, ia, al, et, eu, me, ml, mx, mn] => do
     pure { goName := gn, isArray := ia == "1", arrLen := ← al.toNat?, elemType := et, elemIsUint64 := eu == "1",
            mavenum := me, mavlen := ml, mavext := mx, mavname := mn }
+  | [gn, ia, al, et, eu, me, ml, mx, mn, ex] => do
+    pure { goName := gn, isArray := ia == "1", arrLen := ← al.toNat?, elemType := et, elemIsUint64 := eu == "1",
+           mavenum := me, mavlen := ml, mavext := mx, mavname := mn, exported := ex == "1" }
   | _ => none
 
 def decStruct (name : String) (s : String) : Option Msg.GoStruct := do
